@@ -491,7 +491,7 @@ func (fd *Client) Query(input *dynamodb.QueryInput) (*dynamodb.QueryOutput, erro
 	output := &dynamodb.QueryOutput{
 		Items:            mapItemSliceToDynamodb(items),
 		Count:            &count,
-		LastEvaluatedKey: mapAttributeValueToDynamodb(lastKey),
+		LastEvaluatedKey: mapLastEvaluatedKey(lastKey),
 	}
 
 	return output, nil
@@ -542,7 +542,7 @@ func (fd *Client) Scan(input *dynamodb.ScanInput) (*dynamodb.ScanOutput, error) 
 	output := &dynamodb.ScanOutput{
 		Items:            mapItemSliceToDynamodb(items),
 		Count:            &count,
-		LastEvaluatedKey: mapAttributeValueToDynamodb(lastKey),
+		LastEvaluatedKey: mapLastEvaluatedKey(lastKey),
 	}
 
 	return output, nil
@@ -887,4 +887,14 @@ func getMissingSubstrs(s string, substrs []string) []string {
 	}
 
 	return missingSubstrs
+}
+
+// mapLastEvaluatedKey maps the key a paginated read stopped at; a complete result has no
+// LastEvaluatedKey at all (nil, not an empty map: callers test for nil)
+func mapLastEvaluatedKey(lastKey map[string]*coretypes.Item) map[string]*dynamodb.AttributeValue {
+	if len(lastKey) == 0 {
+		return nil
+	}
+
+	return mapAttributeValueToDynamodb(lastKey)
 }
